@@ -733,7 +733,6 @@ func check(prop, tier, replayFile, onlyScen string, runsOverride int) int {
 	if v, err := strconv.Atoi(os.Getenv("VERIF_BUDGET_S")); err == nil && v > 0 {
 		budget = time.Duration(v) * time.Second
 	}
-	deadline := t0.Add(budget)
 	// work list
 	var queue []chunk
 	for _, sc := range scs {
@@ -757,7 +756,8 @@ func check(prop, tier, replayFile, onlyScen string, runsOverride int) int {
 			}
 		}
 	}
-	// interleave scenarios so that a budget cut hits all of them evenly
+	// the run budget starts once the binaries exist: a slow (cold or contended) build must not eat it
+	deadline := time.Now().Add(budget)
 	var (
 		mu        sync.Mutex
 		results   []RunResult
@@ -920,6 +920,9 @@ func check(prop, tier, replayFile, onlyScen string, runsOverride int) int {
 		fmt.Printf("VIOLATION property=%s replay=%s\n", prop, path)
 	}
 
+	if len(results) == 0 {
+		harness = append(harness, "no simulated run completed (budget exhausted or every worker failed): nothing was checked")
+	}
 	writeEvidence(prop, tier, baseSeed, scs, results, pairs, knownMatched, unlisted, harness, restarts, cut, time.Since(t0))
 	if len(harness) > 0 {
 		for i, h := range harness {
